@@ -48,6 +48,10 @@ TReceive == /\ IsEvent("receive")
 \* job bookkeeping written back (Finished / retry counter)
 TShelf == /\ IsEvent("shelf.write")
           /\ \E k \in tasks : Ev.shelf = "_" \o k.s \o "_jobs" /\ NotifyMark(k)
+\* the read of one job failed (injected): the attempt ends without a receiver call and without a write; only legal for a live job
+TJobReadFail == /\ IsEvent("jobreadfail")
+                /\ \E k \in tasks : k.s = Ev.s /\ k.t = Ev.t /\ k.phase = "ready" /\ <<k.s, k.t>> \in disk.jobs
+                /\ UNCHANGED vars
 TWritePayload == IsEvent("writepayload") /\ WritePayloadAny(Ev.t)
 TCorrupt == IsEvent("corrupt") /\ Corrupt(Ev.pg, Ev.g)
 TCheckPage == IsEvent("checkpage") /\ CheckPage(Ev.pg)
@@ -61,7 +65,7 @@ TGone == /\ l <= Len(TraceLog) /\ UNCHANGED l
          /\ \E k \in tasks : <<k.s, k.t>> \notin disk.jobs /\ k.phase = "ready" /\ NotifyCall(k, "ok")
 
 TraceNext == TReset \/ TOffer \/ TRead \/ TWrite \/ TCommit \/ TRollback \/ TOnRollback \/ THookBegin
-             \/ TReceive \/ TShelf \/ TWritePayload \/ TCorrupt \/ TCheckPage \/ TCrash \/ TStutter \/ TGone
+             \/ TReceive \/ TShelf \/ TJobReadFail \/ TWritePayload \/ TCorrupt \/ TCheckPage \/ TCrash \/ TStutter \/ TGone
 TraceInit == Init /\ l = 1 /\ TLCSet(1, 1)
 TraceSpec == TraceInit /\ [][TraceNext]_tvars
 
